@@ -1,4 +1,5 @@
 import Asn1Verif.Front.ResolveAllLemmas
+import Asn1Verif.Front.ResolveChaseLemmas
 /-
   C12 — Value references and imports resolve exactly like the literals they name.
 
@@ -50,10 +51,15 @@ import Asn1Verif.Front.ResolveAllLemmas
 
   The import chase: `chase_total` / `chase_total_definition` — it comes back for EVERY module,
   scope and name (no acyclicity hypothesis; the full statement `ResolverTotal` of C14).
-  `chase_bound_not_observable` — the bound of `scope.len()` hops never cuts an acyclic chase
-  short: when a rank ≤ `scope.length` decreases along every step, every larger budget gives the
-  same answer.  (That a chase which wants more than `scope.len()` hops must have revisited a
-  module — pigeonhole — is argued in the header of `Front/Resolve.lean`, not proved.)
+  `chase_bound_never_observable` / `chase_bound_never_observable_definition` — the bound of
+  `scope.len()` hops is not observable, for EVERY module, scope and name (no hypothesis): every
+  budget ≥ `chaseFuel scope` gives the answer the repaired code gives.  The pigeonhole step is
+  proved (`Front/ResolveChaseLemmas.lean`): a chase that wants more than `scope.len()` hops has
+  stood in `scope.len() + 1` modules of `scope`, so in some module twice, so it comes back to that
+  module for ever and finds nothing with any budget.  The bound is also sharp
+  (`chase_bound_sharp`: one hop fewer loses a value that is there).
+  `chase_bound_not_observable` — the older, conditional form (a rank ≤ `scope.length` decreases
+  along every step), kept.
 -/
 namespace Asn1Verif.Props.C12
 open Asn1Verif Asn1Verif.Front.Syn
@@ -396,6 +402,18 @@ theorem chase_bound_not_observable (A : UModule) (S : List UModule) (n : String)
     valueReference k A S n = (Scope.mk A S).valueReference n :=
   valueReference_le_of_rank A S n rank hdec (chaseFuel S) k (by unfold chaseFuel; omega) hk
 
+/-- **the hop bound of the repair is never observable**: every larger budget gives the same
+    answer — for every module, scope and name, cyclic imports included (pigeonhole:
+    `chase_fuel_irrelevant` in `Front/ResolveChaseLemmas.lean`) -/
+theorem chase_bound_never_observable (A : UModule) (S : List UModule) (n : String) (k : Nat)
+    (hk : chaseFuel S ≤ k) : valueReference k A S n = (Scope.mk A S).valueReference n :=
+  valueReference_fuel_irrelevant A S n k hk
+
+/-- … likewise for a type name -/
+theorem chase_bound_never_observable_definition (A : UModule) (S : List UModule) (n : String)
+    (k : Nat) (hk : chaseFuel S ≤ k) : definition k A S n = (Scope.mk A S).definition n :=
+  definition_fuel_irrelevant A S n k hk
+
 /-! ### non-vacuity -/
 
 /-- `lo INTEGER ::= 3`, `hi INTEGER ::= 9`, `R ::= INTEGER (lo..hi, ...)`,
@@ -483,5 +501,36 @@ example : (∀ m ∈ chainTop :: [chainLeaf, chainMid, chainTop], ∀ m',
     subst this; decide
 example : Scope.valueOf ⟨chainTop, [chainLeaf, chainMid, chainTop]⟩ "v" = .ok (some (.integer 7)) := by
   decide
+
+/-- `Ra` imports `ghost` from `Rb`, `Rb` from `Rc`, `Rc` from `Ra`; nobody defines it.  `Rc` also
+    defines `w`, which `Ra` imports from `Rb` and `Rb` from `Rc` -/
+def ringA : UModule := ⟨"Ra", none, [⟨["ghost", "w"], "Rb", none⟩], [], []⟩
+def ringB : UModule := ⟨"Rb", none, [⟨["ghost", "w"], "Rc", none⟩], [], []⟩
+def ringC : UModule :=
+  ⟨"Rc", none, [⟨["ghost"], "Ra", none⟩], [], [⟨"w", .integer ⟨none, none, false⟩ [], .integer 5⟩]⟩
+
+-- `chase_bound_never_observable` on the three-module ring: a budget of 100 calls answers what
+-- the repaired code (4 calls) answers — for the name that goes round the ring …
+example : valueReference 100 ringA [ringA, ringB, ringC] "ghost" =
+    Scope.valueReference ⟨ringA, [ringA, ringB, ringC]⟩ "ghost" :=
+  chase_bound_never_observable ringA [ringA, ringB, ringC] "ghost" 100 (by decide)
+-- … the ring really is one (three hops lead from `Ra` back to `Ra`), and the answer is "not found"
+example : orbit (fun m => m.valueReferences.find? fun vr => vr.name == "ghost")
+      [ringA, ringB, ringC] "ghost" 3 ringA = some ringA ∧
+    Scope.valueOf ⟨ringA, [ringA, ringB, ringC]⟩ "ghost" = .ok none := ⟨by rfl, by decide⟩
+-- … and for the name that is found two imports away in the same cyclic scope
+example : valueReference 100 ringA [ringA, ringB, ringC] "w" =
+      Scope.valueReference ⟨ringA, [ringA, ringB, ringC]⟩ "w" ∧
+    Scope.valueOf ⟨ringA, [ringA, ringB, ringC]⟩ "w" = .ok (some (.integer 5)) :=
+  ⟨chase_bound_never_observable ringA [ringA, ringB, ringC] "w" 100 (by decide), by decide⟩
+
+/-- the bound is sharp: the module that asks need not be loaded itself, so `scope.len()` hops can
+    all be needed — `Top` (not in the scope) finds `v` with exactly `chaseFuel` = 3 calls, and
+    with one call fewer it would not -/
+theorem chase_bound_sharp :
+    chaseFuel [chainLeaf, chainMid] = 3 ∧
+    Scope.valueOf ⟨chainTop, [chainLeaf, chainMid]⟩ "v" = .ok (some (.integer 7)) ∧
+    (valueReference 2 chainTop [chainLeaf, chainMid] "v").toOption.map (·.map (·.value)) =
+      some none := by decide
 
 end Asn1Verif.Props.C12
